@@ -152,6 +152,45 @@ def gen_string_builtins(tier, rng):
         for a, b in ((1, 2), (2, 3), (-1, 2), (-3, 2), (0, 1)):
             yield ('string_builtins', 1, [straight([Sx(t), I(a), I(b), Id('substring$')]), [], ''])
 
+
+# write$ / newline$ with long pending lines: runs of 1..4 blanks placed around column 79 of the first line and of the
+# continuation lines (78..82 and the later multiples), words that overflow, several write$ pieces
+def gen_write_long(tier, rng):
+    n = 260 if tier == 'quick' else 3000
+    for _ in range(n):
+        line, col = '', 0
+        for seg in range(rng.randint(1, 3)):
+            target = rng.randint(75, 84) if seg == 0 else rng.randint(73, 82)     # where the next run of blanks starts
+            words = ''
+            while len(words) < target:
+                w = ''.join(rng.choice('abcdefgh.,') for _ in range(rng.randint(1, 9)))
+                if len(words) + len(w) + 1 > target:
+                    w = w[:max(1, target - len(words))] if len(words) < target else ''
+                    words += w
+                    break
+                words += w + rng.choice([' ', ' ', ' ', '  '])
+            line += words + ' ' * rng.randint(1, 4)
+        line += ''.join(rng.choice('xyz') for _ in range(rng.randint(0, 12)))
+        if rng.random() < 0.2:
+            line = ' ' * rng.randint(1, 3) + line
+        cut = sorted(rng.sample(range(1, len(line)), min(len(line) - 1, rng.randint(0, 2))))
+        pieces = [line[a:b] for a, b in zip([0] + cut, cut + [len(line)])]
+        toks = []
+        for pc in pieces:
+            toks += [Sx(pc), Id('write$')]
+        toks.append(Id('newline$'))
+        if rng.random() < 0.3:
+            toks += [Sx('tail  x'), Id('write$'), Id('newline$')]
+        yield ('write_long', 1, [straight(toks), [], ''])
+
+# width$ with backslashes at every brace level, inside and outside special characters
+WIDTH_ARGS = ['a\\b', '{a\\b}', '{{\\ab}}', '{\\ab}', '{\\a}', "{\\'e}x", 'a{b\\c}d', '{{a\\b}}', '\\', '{\\}', 'x{\\^o}{y\\z}', '{\\a{b}c}', '{{{\\a}}}',
+              'a\\{b}', '{a}\\b', '{\\ }', 'ab{c}', "{\\'c{d}}e", '{x}{\\y}{{\\z}}', '\\\\', '{\\\\}', '{a\\}']
+def gen_width(tier, rng):
+    for t in WIDTH_ARGS:
+        yield ('width_backslash', 1, [straight([Sx(t), Id('width$')]), [], ''])
+        yield ('width_backslash', 1, [straight([Sx('p' + t + 'q'), Id('width$')]), [], ''])
+
 # ----------------------------------------------------------------------------------------
 # structured random programs
 STR_POOL = ['', 'a', 'abc', 'Hello World', 'ab{c}d', "{\\'e}cole {T}e{X}", 'x: y. Z', 'The {\\TeX}book: a Story', '  ', 'e.g.', 'wow!',
@@ -578,6 +617,10 @@ def gen_all(tier, rng):
     for c in gen_substring(tier, rng):
         yield c
     for c in gen_string_builtins(tier, rng):
+        yield c
+    for c in gen_write_long(tier, rng):
+        yield c
+    for c in gen_width(tier, rng):
         yield c
     for i in range(1200 if tier == 'quick' else 10000):
         cmds, cites, bib = gen_program(rng, loops=True)
